@@ -621,7 +621,7 @@ def judge(ctx, case, lib, exp, res, obj, mini=None):
     ctx.outcome(outs)
     if exp["n_atoms"] >= 1 and case["over"]:
         ctx.nontrivial((case["kind"], tuple(case["shape"]), tuple(sorted(case["over"].items()))))
-    if case["tag"] in ("defaults", "shape/parallel") or (case["tag"] == "2-way" and len(ctx.samples) < 6 and "atom.attrib" in case["over"]):
+    if case.get("sample"):
         ctx.sample({"case": case, "fields_compared": len(exp), "read_back_ok": {e: not fails[e] for e in fails}})
     # the source object must not have been altered by being stored
     try:
@@ -896,6 +896,22 @@ def run(ctx):
             "t_way": "1-way + 2-way over all dimensions" + ("; 3-way inside the atom record (molecules) and inside the bond record (ensembles); 2-way repeated on a (3,3,2) base; shapes x 1-way" if thorough else ""),
         }
     )
+    # a fixed, representative handful is evaluated first, in the master, and written out as samples
+    picks, seen_tags = [], set()
+    for c in cases:
+        t = (c["kind"], c["tag"])
+        if t not in seen_tags and c["tag"] in ("defaults", "1-way", "2-way", "shape/parallel", "1-way/conformer") and (c["tag"] == "defaults" or c["over"]):
+            if c["tag"] == "2-way" and not ("atom.attrib" in c["over"] and c["over"]["atom.attrib"] == "nested"):
+                continue
+            seen_tags.add(t)
+            picks.append(c)
+    picks = picks[:7]
+    for c in picks:
+        c["sample"] = True
+    pk = {id(c) for c in picks}
+    eval_cases(ctx, A, picks, ctx.seed)
+    cases = [c for c in cases if id(c) not in pk]
+    ctx.sample({"sequence": seqs[len(seqs) // 2]})
     nchunk = 64 if thorough else 16
     parts = [("cases", cases[i::nchunk]) for i in range(nchunk)]
     parts = [p for p in parts if p[1]]
